@@ -164,6 +164,13 @@ impl<CS: CLCiphersuite> PoKSignature<CL03<CS>> {
             return false;
         }
 
+        // exactly one revealed attribute per position that is not hidden: surplus entries of the
+        // list would never be read
+        if messages.len() + unrevealed_message_indexes.len() != n_signed_messages {
+            println!("Number of revealed attributes different from n - |hidden|!");
+            return false;
+        }
+
         let boolean_spok = NISPSignaturePoK::nisp5_MultiAttr_verify_proof::<CS>(
             &CLSPoK.spok,
             commitment_pk,
